@@ -2,7 +2,8 @@
 (***************************************************************************)
 (* Judge for the selection clause of C16, end to end.  RESULTS = what the    *)
 (* real binary selected for remapping on a fabricated system, on both         *)
-(* discovery paths (sel_all: --all-keyboards; sel_dev: --dev-file on every    *)
+(* discovery paths (sel_all: --all-keyboards; sel_auto: --auto-all-keyboards;  *)
+(* sel_dev: --dev-file on every                                                *)
 (* device node with --only-if-keyboard), with the mapping sysfs path -> node. *)
 (* A device under the virtual-input tree or with an excluded name is never    *)
 (* selected; every other device the extractors call a keyboard is; both       *)
@@ -37,6 +38,9 @@ Verdict(r) ==
   \* whichever way the device is named: through a symlink under /dev/input/by-id, or with a doubled slash
   \cup (IF r.nodes # <<>> /\ ToSetOf(r.sel_alt) # Expected(r) THEN {"C16-selection-dev-file-by-other-name"} ELSE {})
   \cup (IF r.nodes # <<>> /\ r.n_alt # Len(r.sel_alt) THEN {"C16-selected-count"} ELSE {})
+  \* the third way through the command line: --auto-all-keyboards (the devices the supervisor goes on to open in its first round)
+  \cup (IF "sel_auto" \in DOMAIN r /\ r.auto_seen /\ ToSetOf(r.sel_auto) # Expected(r) THEN {"C16-selection-auto-all-keyboards"} ELSE {})
+  \cup (IF "sel_auto" \in DOMAIN r /\ r.panicked_auto THEN {"C16-binary-panics"} ELSE {})
   \* list_keyboards shows every keyboard outside the virtual tree (exclusion does not apply there)
   \cup (IF ToSetOf(r.listed) # ListedExpected(r) THEN {"C16-list_keyboards"} ELSE {})
   \cup (IF r.n_all # Len(r.sel_all) \/ (r.nodes # <<>> /\ r.n_dev # Len(r.sel_dev)) THEN {"C16-selected-count"} ELSE {})
